@@ -147,6 +147,50 @@ fn stack_item_cost(c: &Case, st: &mut Stats) -> (usize, usize) {
     v
 }
 
+/// Families that keep feeding NEW names / values through a rewriter with a small memory limit:
+/// whatever the rewriter keeps per distinct name must be released (or charged), so the live heap
+/// of the process may not grow with the input. (limit, documents of `per` items, chunks)
+pub const HEAP: &[(&str, usize)] = &[("distinct_element_names_flat", 40_000), ("distinct_element_names_nested_closed", 40_000), ("distinct_attribute_names", 40_000), ("distinct_class_values", 40_000)];
+pub const HEAP_LIMIT: usize = 16_384;
+/// growth allowed beyond the limit (allocator slack, hash-map capacity steps): far below what
+/// 40 000 retained names would take
+pub const HEAP_SLACK: usize = 192 * 1024;
+
+pub fn heap_probe(family: &str, n: usize, live: &dyn Fn() -> isize) -> Result<String, String> {
+    use lol_html::{HtmlRewriter, MemorySettings, Settings, element};
+    let item = |i: usize| -> String {
+        match family {
+            "distinct_element_names_flat" => format!("<x-{i:07}></x-{i:07}>"),
+            "distinct_element_names_nested_closed" => format!("<div><y{i:07}><b></b></y{i:07}></div>"),
+            "distinct_attribute_names" => format!("<p a{i:07}=1 class=c></p>"),
+            _ => format!("<p class=\"k{i:07} z\" id=i{i:07}></p>"),
+        }
+    };
+    // chunks are built before the measurement starts; the sink discards output
+    let chunks: Vec<String> = (0..n).collect::<Vec<_>>().chunks(50).map(|c| c.iter().map(|i| item(*i)).collect::<String>()).collect();
+    let settings = Settings::new()
+        .with_memory_settings(MemorySettings::new().with_max_allowed_memory_usage(HEAP_LIMIT).with_preallocated_parsing_buffer_size(0))
+        .append_element_content_handler(element!("*", |_el| Ok(())))
+        .append_element_content_handler(element!("p.z[id]", |_el| Ok(())))
+        .append_element_content_handler(element!("div > * > b", |_el| Ok(())));
+    let before = live();
+    let mut rw = HtmlRewriter::new(settings, |_: &[u8]| {});
+    let after_new = live();
+    for c in &chunks {
+        if let Err(e) = rw.write(c.as_bytes()) {
+            // failing with MemoryLimitExceeded is the other legitimate outcome
+            return Ok(format!("write failed: {e} (heap growth so far {})", live() - before));
+        }
+    }
+    let after_writes = live();
+    let growth = (after_writes - after_new).max(0) as usize;
+    drop(rw);
+    if growth > HEAP_LIMIT + HEAP_SLACK {
+        return Err(format!("the live heap of the process grew by {growth} bytes while {n} items with distinct names were written under max_allowed_memory_usage={HEAP_LIMIT} and every write succeeded (allowed: limit + {HEAP_SLACK} bytes of slack)"));
+    }
+    Ok(format!("heap_growth={growth}"))
+}
+
 pub fn check_case(c: &Case, st: &mut Stats) -> PResult {
     let chunks = split(&c.input, &c.cuts);
     let mut free = c.cfg.clone();
@@ -250,11 +294,37 @@ impl Prop for C10 {
     fn id(&self) -> &'static str {
         "C10"
     }
+    fn extra(&self, ctx: &Ctx, st: &mut Stats) -> Result<(), (Failure, Value)> {
+        let exe = std::env::current_exe().map_err(|e| (Failure::new(format!("current_exe: {e}")), json!(null)))?;
+        for (name, n) in HEAP {
+            st.eval();
+            let case = json!({"heap_family": name, "n": n, "replay": format!("lolv C10 --heap {name} {n}")});
+            match std::process::Command::new(&exe).args(["C10", "--heap", name, &n.to_string()]).env("VERIF_ROOT", &ctx.root).output() {
+                Err(e) => {
+                    st.label(&format!("heap_probe_inconclusive_{name}: {e}"));
+                }
+                Ok(o) => {
+                    let so = String::from_utf8_lossy(&o.stdout).trim().to_string();
+                    if so.starts_with("FAILED") {
+                        return Err((Failure::new(format!("C10: {}", so.trim_start_matches("FAILED "))), case));
+                    }
+                    if !o.status.success() {
+                        st.label(&format!("heap_probe_inconclusive_{name}"));
+                        continue;
+                    }
+                    st.label(&format!("heap_{name}"));
+                    st.nontrivial(fnv(name.as_bytes()));
+                    st.extra_results.push(json!({"heap_family": name, "n": n, "limit": HEAP_LIMIT, "outcome": so}));
+                }
+            }
+        }
+        Ok(())
+    }
     fn level(&self) -> &'static str {
         "fault_enumeration"
     }
     fn rule(&self) -> String {
-        "case = (growth-targeted input family [unterminated tag/attribute/comment/doctype under capturing handlers, long tag name without handlers, deep nesting with attribute/descendant selectors, long captured text, many elements] or soup, handler configuration, preallocation p in {0,1,64,1024} held FIXED across the sweep, schedule); the limit M is swept over every value p..p+96, a dense window around the input length and a geometric continuation beyond the need; oracle per M: result is Ok or MemoryLimitExceeded (never a panic/other error); after every successful call accounted usage (hook) <= M and retained bytes_in-bytes_out <= accounted; Ok => output and events identical to the unlimited run; success under M => success under every larger M; two identical runs agree on the failing call; for single-write UTF-8 cases `rewrite_str` with the same settings gives the same result kind and output; for the deep-nesting families a run with k open elements may only succeed when M >= c + k*S, where the per-element cost S and fixed cost c are measured on the same configuration by bisecting the minimal limit for 1 and for 9 open elements (open-element bookkeeping is charged linearly, not only for its first growth steps). non-trivial = the sweep contains both a failing and a succeeding limit; evaluations = rewriter runs".into()
+        "case = (growth-targeted input family [unterminated tag/attribute/comment/doctype under capturing handlers, long tag name without handlers, deep nesting with attribute/descendant selectors, long captured text, many elements] or soup, handler configuration, preallocation p in {0,1,64,1024} held FIXED across the sweep, schedule); the limit M is swept over every value p..p+96, a dense window around the input length and a geometric continuation beyond the need; oracle per M: result is Ok or MemoryLimitExceeded (never a panic/other error); after every successful call accounted usage (hook) <= M and retained bytes_in-bytes_out <= accounted; Ok => output and events identical to the unlimited run; success under M => success under every larger M; two identical runs agree on the failing call; for single-write UTF-8 cases `rewrite_str` with the same settings gives the same result kind and output; for the deep-nesting families a run with k open elements may only succeed when M >= c + k*S, where the per-element cost S and fixed cost c are measured on the same configuration by bisecting the minimal limit for 1 and for 9 open elements (open-element bookkeeping is charged linearly, not only for its first growth steps). plus four heap families in a child process with a counting allocator: 40 000 items with distinct element names / attribute names / class and id values written under a 16 KiB limit may not grow the live heap by more than limit + 192 KiB (bookkeeping keyed by names must be released or charged). non-trivial = the sweep contains both a failing and a succeeding limit; evaluations = rewriter runs".into()
     }
     fn assumptions(&self) -> Vec<String> {
         vec!["documented precondition preallocated_parsing_buffer_size <= max_allowed_memory_usage is respected".into(), "accounted usage read through the _verif_hooks accessor".into(), "with a text handler the streaming decoder may hold <= 3 bytes of one split character outside the accounted buffers (constant-size codec state)".into(), "the tree-builder simulator's namespace stack is not accounted by the limiter (not observable, see DESIGN section 7)".into()]
